@@ -100,18 +100,88 @@ def gen_types(rng, n):
     return out
 
 
-def features(src):
-    """syntactic features of a type expression that explain a known difference"""
-    f = set()
-    if re.search(r'"|`', src):
-        f.add("struct-tag")
-    if re.search(r'\bPtr\b', src):
-        f.add("named-pointer-type")
-    if re.search(r'map\[\*', src):
-        f.add("map-pointer-key")
-    if re.search(r'chan \(<-chan|chan \(chan<-|<-chan \(chan|chan<- \(chan', src) or re.search(r'chan (<-)?chan|chan<- chan', src):
-        f.add("chan-of-chan")
-    return f
+def strip_chan_parens(t):
+    """`chan (<-chan int)` -> `chan <-chan int` (llgo does not parenthesise a channel element)"""
+    out = []
+    i = 0
+    while i < len(t):
+        m = re.match(r'(chan<- |<-chan |chan )\(', t[i:])
+        if m and (i == 0 or not (t[i - 1].isalnum() or t[i - 1] == '_')):
+            # find the matching parenthesis
+            depth, j = 0, i + len(m.group(0)) - 1
+            k = j
+            while k < len(t):
+                if t[k] == '(':
+                    depth += 1
+                elif t[k] == ')':
+                    depth -= 1
+                    if depth == 0:
+                        break
+                k += 1
+            inner = t[j + 1:k]
+            if re.match(r'(chan<- |<-chan |chan )', inner):
+                out.append(m.group(1))
+                t = t[:i] + m.group(1) + inner + t[k + 1:]
+                continue
+        out.append(t[i])
+        i += 1
+    return t
+
+
+STRING_NORMALISERS = [
+    # (class, what Go's reflect string must be turned into to obtain llgo's emitted string)
+    ("struct-tag", lambda t: re.sub(r' "(?:[^"\\]|\\.)*"(?=;| \})', '', t)),
+    ("chan-of-chan", strip_chan_parens),
+    ("map-pointer-key", lambda t: re.sub(r'map\[\*+', 'map[', t)),
+    ("named-pointer-type", lambda t: re.sub(r'(?<![\w./])((?:[\w/]+\.)?Ptr)\b', r'*\1', t)),
+    ("main-package-path", lambda t: main_to_path(t)),
+]
+
+
+def main_to_path(t):
+    """inside the brackets of a generic INSTANCE llgo prints a package by import path (main -> module path), elsewhere by name"""
+    out, stack, i = [], [], 0
+    while i < len(t):
+        c = t[i]
+        if c == '[':
+            j = i - 1
+            while j >= 0 and (t[j].isalnum() or t[j] == '_'):
+                j -= 1
+            word = t[j + 1:i]
+            stack.append(bool(word) and word != "map")
+        elif c == ']':
+            if stack:
+                stack.pop()
+        if t.startswith("main.", i) and stack and stack[-1] and (i == 0 or not (t[i - 1].isalnum() or t[i - 1] in "_./")):
+            out.append(tg.MOD + ".")
+            i += 5
+            continue
+        out.append(c)
+        i += 1
+    return "".join(out)
+
+
+def has_fallback_targ(t):
+    """a func / struct type below a type argument (typeArgString / reflectTypeArgString fall back to types.TypeString there)"""
+    def below(x):
+        return x[0] in ('f', 'st') or any(below(y) for y in tg._children(x))
+    if t[0] == 'n' and any(below(a) for a in t[3]):
+        return True
+    return any(has_fallback_targ(x) for x in tg._children(t))
+
+
+
+def explain_string(go, llgo):
+    """-> list of classes whose combination turns Go's string into llgo's, or None"""
+    import itertools
+    for r in range(1, len(STRING_NORMALISERS) + 1):
+        for combo in itertools.combinations(STRING_NORMALISERS, r):
+            t = go
+            for _, f in combo:
+                t = f(t)
+            if t == llgo:
+                return [c for c, _ in combo]
+    return None
 
 
 def run(ctx, args):
@@ -200,27 +270,20 @@ def run(ctx, args):
         raise RuntimeError("oracle printed %d of %d types: %s" % (len(oracle), len(types_), oe[-1000:]))
     unknown_seen = {}
 
-    def report(aspect, i, what, detail):
+    def report(aspect, i, what, detail, classes=None):
         nonlocal spec_fail
         spec_fail += 1
         src = types_[i][1]
-        fs = features(src)
-        cls = None
-        if aspect == "string":
-            for c in ("named-pointer-type", "map-pointer-key", "struct-tag", "chan-of-chan"):
-                if c in fs:
-                    cls = c
-                    break
-        elif aspect in ("methods", "nummethod"):
-            cls = detail.get("class")
-        key = "reflect:%s:%s" % (aspect, cls) if cls else None
-        if key is None or ctx.match_known(key) is None:
-            base = "reflect:%s:%s" % (aspect, cls or "?")
-            unknown_seen[base] = unknown_seen.get(base, 0) + 1
-            if unknown_seen[base] > 3:
-                return
-            key = "%s:%s" % (base, src[:100])
-        ctx.report(key, what, dict(detail, type=src))
+        keys = ["reflect:%s:%s" % (aspect, c) for c in (classes or [])]
+        if keys and all(ctx.match_known(k) is not None for k in keys):
+            for k in keys:
+                ctx.report(k, what, dict(detail, type=src))
+            return
+        base = "reflect:%s:%s" % (aspect, "+".join(classes) if classes else "?")
+        unknown_seen[base] = unknown_seen.get(base, 0) + 1
+        if unknown_seen[base] > 3:
+            return
+        ctx.report("%s:%s" % (base, src[:100]), what, dict(detail, type=src))
 
     for i in sorted(descs):
         d, o = descs[i], oracle[i]
@@ -228,7 +291,10 @@ def run(ctx, args):
         stats[label] = stats.get(label, 0) + 1
         stats["kind:" + KINDS[o["kind"]]] = stats.get("kind:" + KINDS[o["kind"]], 0) + 1
         if d["string"] != o["string"]:
-            report("string", i, "the emitted type string differs from reflect.Type.String()", {"llgo": d["string"].decode(), "go": o["string"].decode()})
+            cls = explain_string(o["string"].decode(), d["string"].decode())
+            if cls is None and ((types_[i][2] is not None and has_fallback_targ(types_[i][2])) or (types_[i][2] is None and re.search(r'\b[GH]\[[^\]]*(struct|func)', types_[i][1]))):
+                cls = ["targ-fallback-format"]
+            report("string", i, "the emitted type string differs from reflect.Type.String()", {"llgo": d["string"].decode(), "go": o["string"].decode()}, cls)
         if d["kind"] != o["kind"]:
             report("kind", i, "the emitted kind differs from reflect.Type.Kind()", {"llgo": d["kind"], "go": o["kind"]})
         if (d["flags"][2] == "1") != o["variadic"]:
@@ -242,25 +308,27 @@ def run(ctx, args):
                 k = full.rfind(b".")
                 llm.append((full[k + 1:], full[:k] if k >= 0 else b""))
             if llm != o["M"]:
-                report("imethods", i, "the interface method table differs from reflect's Method(i)", {"llgo": str(llm), "go": str(o["M"])})
+                cls = ["main-package-path"] if [(a, b"main" if b == tg.MOD.encode() else b) for a, b in llm] == o["M"] else None
+                report("imethods", i, "the interface method table differs from reflect's Method(i)", {"llgo": str(llm), "go": str(o["M"])}, cls)
         else:
             hm = [unhexs(x) for x in d["M"][0::2]] if d["uncommon"] else []
             xc = d["xcount"] if d["uncommon"] else 0
             first = hm[:xc]
             gonames = [m[0] for m in o["M"]]
             if xc != o["nmethod"]:
-                report("nummethod", i, "Xcount differs from reflect.Type.NumMethod()", {"llgo": xc, "go": o["nmethod"], "class": None})
+                report("nummethod", i, "Xcount differs from reflect.Type.NumMethod()", {"llgo": xc, "go": o["nmethod"]})
             elif first != gonames:
                 # ExportedMethods() = the first Xcount entries of the table
-                cls = "exported-not-a-prefix" if sorted(x for x in hm if b"." not in x) == gonames else None
-                report("methods", i, "the first Xcount entries of the method table are not the exported methods reflect reports", {"llgo_table": str(hm), "xcount": xc, "go": str(gonames), "class": cls})
+                cls = ["exported-not-a-prefix"] if sorted(x for x in hm if b"." not in x) == gonames else None
+                report("methods", i, "the first Xcount entries of the method table are not the exported methods reflect reports", {"llgo_table": str(hm), "xcount": xc, "go": str(gonames)}, cls)
         if o["kind"] == 25:
             lf = [(unhexs(d["F"][k]), unhexs(d["F"][k + 1]), d["F"][k + 2] == "1") for k in range(0, len(d["F"]), 4)]
             gf = [(unhexs(f[0]), unhexs(f[1]), f[2] == "1") for f in o["F"]]
             if lf != gf:
                 report("fields", i, "the field table (name, tag, embedded, order) differs from reflect's Field(i)", {"llgo": str(lf), "go": str(gf)})
         if o["name"] != b"" and d["uncommon"] and d["pkgpath"] != o["pkgpath"]:
-            report("pkgpath", i, "the uncommon type's PkgPath_ differs from reflect.Type.PkgPath()", {"llgo": d["pkgpath"].decode(), "go": o["pkgpath"].decode()})
+            cls = ["main-package-path"] if o["pkgpath"] == b"main" and d["pkgpath"] == tg.MOD.encode() else None
+            report("pkgpath", i, "the uncommon type's PkgPath_ differs from reflect.Type.PkgPath()", {"llgo": d["pkgpath"].decode(), "go": o["pkgpath"].decode()}, cls)
         if len(samples) < 3 and label == "corpus" and i in (25, 40, 43):
             samples.append({"type": types_[i][1], "ssa/abi": d["string"].decode(), "reflect": o["string"].decode(), "kind": KINDS[o["kind"]]})
 
@@ -337,6 +405,11 @@ def ir_tie(ctx, types_, descs, stats, corr_bad):
         flags = "".join("1" if e["tflag"] & b else "0" for b in (4, 2, 16, 32))
         got = (e["str"], e["kind"], flags, bool(e["tflag"] & 1))
         want = (dd["str"], dd["kind"], dd["flags"], dd["uncommon"])
+        if got != want and dd["kind"] == 19 and dd["flags"][0] == "1" and got == (dd["str"], 25, dd["flags"][:3] + "1", dd["uncommon"]):
+            # a NAMED func type is emitted as a named closure struct (kind struct + TFlagClosure): the documented
+            # two-word representation of function values
+            stats["ir-tie:named-func-as-closure"] = stats.get("ir-tie:named-func-as-closure", 0) + 1
+            continue
         if got != want:
             corr_bad.append((i, types_[i][1], "IR descriptor %s: emitted %s, ssa/abi says %s" % (dd["sym"], got, want)))
             continue
@@ -349,7 +422,13 @@ def ir_tie(ctx, types_, descs, stats, corr_bad):
             lf = [(unhexs(dd["F"][k]), unhexs(dd["F"][k + 3]).decode(), unhexs(dd["F"][k + 1]), dd["F"][k + 2] == "1") for k in range(0, len(dd["F"]), 4)]
             ef = [(f[0], f[1], f[3], f[4]) for f in (e["fields"] or [])]
             if lf != ef:
-                corr_bad.append((i, types_[i][1], "IR field table of %s: emitted %s, expected %s" % (dd["sym"], ef, lf)))
+                if [(a, b, e_) for a, b, _, e_ in lf] == [(a, b, e_) for a, b, _, e_ in ef]:
+                    # only the tags differ: struct types that differ only in tags share one symbol (C07 samename:tag), the
+                    # linker / the per-package cache keeps ONE field table, reflect then reports the other variant's tags
+                    ctx.report("emit:tag-variants-share-descriptor", "two struct types differing only in tags are emitted under one descriptor; the field table carries one variant's tags",
+                               {"type": types_[i][1], "symbol": dd["sym"], "emitted": str(ef), "expected": str(lf)})
+                else:
+                    corr_bad.append((i, types_[i][1], "IR field table of %s: emitted %s, expected %s" % (dd["sym"], ef, lf)))
         if dd["kind"] == 20:
             li = [(unhexs(dd["IM"][k]), unhexs(dd["IM"][k + 1]).decode()) for k in range(0, len(dd["IM"]), 2)]
             if (e["imethods"] or []) != li:
